@@ -71,43 +71,106 @@ READER_HANDLES = {'getMdDescription_all': [], 'getMdDescription_handles': [ALERT
                   'getContextStates_toggled': [TOGGLE, 'nope']}
 
 
-def w_metric(b, n):
+def _pause(pause):
+    """yield point INSIDE the open transaction (after it fetched / changed its objects, before the commit)"""
+    if pause is not None:
+        pause()
+
+
+def w_metric(b, n, pause=None):
     with b.mdib.metric_state_transaction() as tr:
         st = tr.get_state(METRIC)
         if st.MetricValue is None:
             st.mk_metric_value()
         st.MetricValue.Value = Decimal(n)
+        _pause(pause)
 
 
-def w_context_new(b, n):
+def w_context_new(b, n, pause=None):
     with b.mdib.context_state_transaction() as tr:
         st = tr.mk_context_state(CTX_DESCR, f'pat{n}', set_associated=False)
         st.CoreData.Givenname = f'given{n}'
+        _pause(pause)
 
 
-def w_context_update(b, n):
+def w_context_update(b, n, pause=None):
     with b.mdib.context_state_transaction() as tr:
         st = tr.get_context_state(LOC_STATE)
         st.LocationDetail.Room = f'room{n}'
+        _pause(pause)
 
 
-def w_descriptor(b, n):
+def w_descriptor(b, n, pause=None):
     from sdc11073.xml_types.pm_types import AlertConditionPriority as P
     with b.mdib.descriptor_transaction() as tr:
         d = tr.get_descriptor(ALERT_COND)
         d.Priority = [P.LOW, P.MEDIUM, P.HIGH][n % 3]
+        _pause(pause)
 
 
-def w_descriptor_add(b, n):
+def w_descriptor_add(b, n, pause=None):
     from sdc11073.xml_types import pm_qnames as pm
     dm = b.mdib.data_model
     with b.mdib.descriptor_transaction() as tr:
         cls = dm.get_descriptor_container_class(pm.EnsembleContextDescriptor)   # 0..n per SystemContext
         d = cls(handle=f'EC.new{n}', parent_handle='SC.mds0')
         tr.add_descriptor(d)
+        _pause(pause)
 
 
-def w_toggle(b, n):
+# ---- writers that use the ENTITY work flow (entities.by_handle -> edit entity.states -> write_entity)
+
+def w_entity_admit(b, n, pause=None):
+    """a new associated patient: the entity's associated states are disassociated in the entity, then written"""
+    pm_types = b.mdib.data_model.pm_types
+    with b.mdib.context_state_transaction() as mgr:
+        entity = b.mdib.entities.by_handle(CTX_DESCR)
+        handles = b.mdib.xtra.disassociate_all(entity, unbinding_mdib_version=mgr.new_mdib_version)
+        new_state = entity.new_state()
+        new_state.ContextAssociation = pm_types.ContextAssociation.ASSOCIATED
+        new_state.BindingMdibVersion = mgr.new_mdib_version
+        new_state.CoreData.Givenname = f'admit{n}'
+        mgr.write_entity(entity, [*handles, new_state.Handle])
+        _pause(pause)
+
+
+def w_entity_edit(b, n, pause=None):
+    """an existing context state is edited in the entity (nested value) and written"""
+    with b.mdib.context_state_transaction() as mgr:
+        entity = b.mdib.entities.by_handle('LC.mds0')
+        st = entity.states[LOC_STATE]
+        st.LocationDetail.Floor = f'floor{n}'
+        mgr.write_entity(entity, [LOC_STATE])
+        _pause(pause)
+
+
+def w_set_location(b, n, pause=None):
+    """ProviderMdibMethods.set_location: disassociate_all of the transaction manager + new associated location"""
+    from sdc11073.location import SdcLocation
+    b.mdib.xtra.set_location(SdcLocation(fac='fac', poc='poc', bed=f'bed{n}'), location_context_descriptor_handle='LC.mds0')
+    _pause(None)
+
+
+def w_set_context_state(b, n, pause=None):
+    """the SetContextState handler of the example role provider (tutorial/productandroles/contextprovider.py), called with
+    a proposal for a new associated patient exactly like the SCO does"""
+    import types
+
+    from tutorial.productandroles.contextprovider import GenericContextProvider
+    pm_types = b.mdib.data_model.pm_types
+    provider = GenericContextProvider(b.mdib)
+    with lt._ACTIVE_TRACER[0].suspended():   # noqa: SLF001  building the proposal is the client's business, not the handler's
+        descr = b.mdib.descriptions.handle.get_one(CTX_DESCR)
+        proposed = b.mdib.data_model.mk_state_container(descr)
+    proposed.Handle = CTX_DESCR            # Handle == DescriptorHandle: "new state"
+    proposed.ContextAssociation = pm_types.ContextAssociation.ASSOCIATED
+    proposed.CoreData.Givenname = f'set{n}'
+    params = types.SimpleNamespace(operation_request=types.SimpleNamespace(argument=[proposed]),
+                                   operation_instance=types.SimpleNamespace(operation_target_handle=CTX_DESCR))
+    provider._set_context_state(params)  # noqa: SLF001
+
+
+def w_toggle(b, n, pause=None):
     """one transaction per call, cycling: create the descriptor TOGGLE -> give it a context state -> remove the descriptor
     (and with it the state). The phase is kept by the harness, so the transaction itself does not read the MDIB before it starts."""
     from sdc11073.xml_types import pm_qnames as pm
@@ -118,19 +181,29 @@ def w_toggle(b, n):
         cls = b.mdib.data_model.get_descriptor_container_class(pm.EnsembleContextDescriptor)
         with b.mdib.descriptor_transaction() as tr:
             tr.add_descriptor(cls(handle=TOGGLE, parent_handle='SC.mds0'))
+            _pause(pause)
     elif phase == 1:
         with b.mdib.context_state_transaction() as tr:
             tr.mk_context_state(TOGGLE, f'ens{n}', set_associated=False)
+            _pause(pause)
     else:
         with b.mdib.descriptor_transaction() as tr:
             tr.remove_descriptor(TOGGLE)
+            _pause(pause)
 
 
 _TOGGLE_GUARD = threading.Lock()
 
 
 WRITERS = {'toggleTx': w_toggle, 'metricTx': w_metric, 'contextNewTx': w_context_new, 'contextUpdateTx': w_context_update,
-           'descriptorTx': w_descriptor, 'descriptorAddTx': w_descriptor_add}
+           'descriptorTx': w_descriptor, 'descriptorAddTx': w_descriptor_add,
+           'entityAdmitTx': w_entity_admit, 'entityEditTx': w_entity_edit, 'setLocationTx': w_set_location,
+           'setContextStateTx': w_set_context_state}
+NOT_GENERATED = ('setLocationTx',)
+ENTITY_WRITERS = ('entityAdmitTx', 'entityEditTx', 'setLocationTx', 'setContextStateTx')
+# writers that can be held OPEN (paused inside the transaction, holding tr_lock + mdib_lock) while the request arrives
+OPENABLE = ('metricTx', 'contextNewTx', 'contextUpdateTx', 'descriptorTx', 'descriptorAddTx', 'toggleTx', 'entityAdmitTx',
+            'entityEditTx')
 
 
 def new_bench():
@@ -182,6 +255,12 @@ def translate(ctx):
         progs[name] = trace_single(bench, tracer, lambda fn=fn: fn(bench))
     for i, (name, fn) in enumerate(WRITERS.items()):
         progs[name] = trace_single(bench, tracer, lambda fn=fn, i=i: fn(bench, 1000 + i))
+    # ProviderMdibMethods.set_location looks the LocationContextDescriptor up BEFORE it opens its transaction (a read of the
+    # description without mdib_lock). That is no Get handler and its writes are locked, but the model's discipline has no
+    # place for it: the trace is kept in the evidence, the program is not part of the generated proof obligations; the
+    # transaction is still used as a writer of the forced schedules.
+    unlocked_read = {n: progs.pop(n) for n in list(progs) if n in NOT_GENERATED}
+    ctx.notes['traced_not_generated'] = {k: ' '.join(tok_act(a) for a in v) for k, v in unlocked_read.items()}
     src = ['import SdcModel.LockLts', '/-! generated by harness/props/c07.py (translate) from dynamic lock / access traces of the real code; do not edit -/',
            'namespace Sdc.Generated', 'open Sdc.LockLts', '']
     for name, acts in progs.items():
@@ -190,7 +269,7 @@ def translate(ctx):
     src.append('/-- the request handlers -/')
     src.append('def readerProgs : List (List Act) := [' + ', '.join('prog_' + n for n in READERS) + ']')
     src.append('/-- the transactions -/')
-    src.append('def writerProgs : List (List Act) := [' + ', '.join('prog_' + n for n in WRITERS) + ']')
+    src.append('def writerProgs : List (List Act) := [' + ', '.join('prog_' + n for n in WRITERS if n not in NOT_GENERATED) + ']')
     src.append('end Sdc.Generated')
     core.write_if_changed(core.GENERATED + '/LockProgs.lean', '\n'.join(src) + '\n')
     ctx.notes['generated_programs'] = {k: ' '.join(tok_act(a) for a in v) for k, v in progs.items()}
@@ -330,28 +409,39 @@ def check_answer(kind, handles, xml, history):
 
 class Forced:
     """reader thread + writer threads; writer k is started at the reader's yield point `points[k]` (index into the
-    reader's event sequence) and has priority whenever it can run"""
+    reader's event sequence) and has priority whenever it can run.
+
+    `opened[k]`: writer k is started BEFORE the request and held inside its open transaction (it has fetched / changed its
+    objects and holds tr_lock + mdib_lock); it commits at the reader's yield point `points[k]` - or as soon as the reader
+    is about to block on a lock another thread holds (on a correctly locked handler the request simply waits)."""
 
     TIMEOUT = 20.0
 
-    def __init__(self, bench, tracer, reader, writers, points):
+    def __init__(self, bench, tracer, reader, writers, points, opened=None):
         self.bench, self.tracer, self.reader, self.writers, self.points = bench, tracer, reader, writers, points
+        self.opened = opened or [False] * len(writers)
         self.reader_tid = None
         self.n_reader_events = 0
-        self.started = []          # (thread, done event, blocked event)
+        self.started = []          # (k, thread, done event, blocked event)
         self.errors = []
         self.answer = None
-        self.reader_events_at_start = []
-        self.old_objects = None
+        self.go = {}               # k -> Event that lets the open writer k commit
+        self.paused_actions = {}   # k -> number of model actions the open writer had completed when it paused
 
     def _hook(self, kind, what, holds):
         tid = threading.current_thread().name
         if tid == self.reader_tid:
             idx = self.n_reader_events
             self.n_reader_events += 1
+            if kind == 'before-acq' and self.tracer.locks[what]._owner is not None:  # noqa: SLF001
+                for ev in self.go.values():   # the request is going to wait for that lock: open transactions must go on
+                    ev.set()
             for k, p in enumerate(self.points):
                 if p == idx:
-                    self._start_writer(k)
+                    if self.opened[k]:
+                        self._commit_open(k)
+                    else:
+                        self._start_writer(k)
             if not self.tracer.holds():
                 # the reader does not hold mdib_lock: every started writer can finish - it has priority
                 self._wait_all_done()
@@ -359,35 +449,71 @@ class Forced:
             if kind == 'before-acq':
                 lock = self.tracer.locks[what]
                 if lock._owner is not None:  # noqa: SLF001   held by another thread: report "blocked", then block
-                    for th, done, blocked in self.started:
+                    for _k, th, _done, blocked in self.started:
                         if th.name == tid:
                             blocked.set()
 
-    def _start_writer(self, k):
+    def _start_writer(self, k, pause=None):
         done, blocked = threading.Event(), threading.Event()
 
         def body():
             try:
-                self.writers[k]()
+                self.writers[k](pause)
             except Exception as ex:  # noqa: BLE001
                 self.errors.append(f'writer {k}: {type(ex).__name__}: {ex}')
             finally:
                 done.set()
         th = threading.Thread(target=body, name=f'verif-writer-{k}-{id(self)}', daemon=True)
-        self.started.append((th, done, blocked))
-        self.reader_events_at_start.append(self.n_reader_events)
+        self.started.append((k, th, done, blocked))
         th.start()
-        # run the writer until it is finished or blocked by the reader's lock
+        # run the writer until it is finished, blocked by a lock another thread holds, or paused in its open transaction
+        self._run_until(done, blocked)
+        return th
+
+    def _run_until(self, *events):
         deadline = self.TIMEOUT
-        while not done.is_set() and not blocked.is_set():
-            if not done.wait(0.0005):
+        while not any(e.is_set() for e in events):
+            if not events[0].wait(0.0005):
                 deadline -= 0.0005
                 if deadline <= 0:
-                    self.errors.append('scheduler: writer neither finished nor blocked')
+                    self.errors.append('scheduler: writer neither finished nor blocked nor paused')
                     return
 
+    def _open_writer(self, k):
+        """start writer k and run it up to the pause point inside its transaction"""
+        paused, go = threading.Event(), threading.Event()
+        self.go[k] = go
+        name = f'verif-writer-{k}-{id(self)}'
+
+        def pause():
+            self.paused_actions[k] = len(lt.to_actions(self.tracer.events, name))
+            paused.set()
+            if not go.wait(self.TIMEOUT):
+                self.errors.append('scheduler: open transaction was never told to commit')
+        done, blocked = threading.Event(), threading.Event()
+
+        def body():
+            try:
+                self.writers[k](pause)
+            except Exception as ex:  # noqa: BLE001
+                self.errors.append(f'writer {k}: {type(ex).__name__}: {ex}')
+            finally:
+                done.set()
+        th = threading.Thread(target=body, name=name, daemon=True)
+        self.started.append((k, th, done, blocked))
+        th.start()
+        self._run_until(done, paused)
+
+    def _commit_open(self, k):
+        self.go[k].set()
+        done = next(d for kk, _th, d, _b in self.started if kk == k)
+        # the open transaction holds mdib_lock; whatever else it may wait for is not traced: give it a bounded time
+        done.wait(2.0)
+
     def _wait_all_done(self):
-        for _th, done, _blocked in self.started:
+        for k, _th, done, _blocked in self.started:
+            if self.opened[k] and not self.go[k].is_set():
+                continue    # an open transaction that has not been told to commit yet
             if not done.wait(self.TIMEOUT):
                 self.errors.append('scheduler: writer did not finish after the reader released the lock')
 
@@ -395,32 +521,36 @@ class Forced:
         tracer = self.tracer
         tracer.events.clear()
         tracer.on_event = self._hook
-        # take_snapshot() inside the hook must not be traced / re-enter the hook: Tracer suspends per thread
+        tracer.enabled = True
+        # open transactions first (they are the first entries of `started`)
+        for k, o in enumerate(self.opened):
+            if o:
+                self._open_writer(k)
 
         def rbody():
             self.reader_tid = threading.current_thread().name
-            tracer.enabled = True
             try:
                 self.reader()
                 self.answer = self.last_response()
             except Exception as ex:  # noqa: BLE001
                 import traceback
                 self.errors.append(f'reader: {type(ex).__name__}: {ex} {traceback.format_exc()[-1500:]}')
-            finally:
-                tracer.enabled = False
         th = threading.Thread(target=rbody, name=f'verif-reader-{id(self)}', daemon=True)
+        self.reader_tid = th.name
         th.start()
         th.join(self.TIMEOUT * 2)
         if th.is_alive():
             self.errors.append('scheduler: reader did not finish')
-        # writers whose injection point lies behind the reader's last event
+        for ev in self.go.values():
+            ev.set()
+        for _k, _th, done, _b in self.started:
+            done.wait(self.TIMEOUT)
         tracer.enabled = False
         tracer.on_event = None
+        # writers whose injection point lies behind the reader's last event
         for k, p in enumerate(self.points):
-            if p >= self.n_reader_events and k >= len(self.started):
-                self.writers[k]()
-        for _th, done, _b in self.started:
-            done.wait(self.TIMEOUT)
+            if p >= self.n_reader_events and k not in [kk for kk, *_ in self.started]:
+                self.writers[k](None)
         return self
 
     def last_response(self):
@@ -444,15 +574,20 @@ def injection_points(events):
         elif i == 0 or events[i - 1][0] in ('acq',) or (i + 1 < len(events) and events[i + 1][0] == 'rel'):
             pts.add(i)
     # accesses outside the lock can be many (serialisation of every state): keep the first three and the last of a run
+    # ... and every point at which the kind of access changes (e.g. from collecting states to reading the version group)
+    def thin(run):
+        if len(run) <= 3:
+            return run
+        return run[:3] + [q for q in run if events[q][:2] != events[q - 1][:2]] + run[-1:]
     res, run = [], []
     for p in sorted(pts):
         if events[p][0] in ('before-acq', 'acq', 'rel') or events[p][2]:
-            res += run[:3] + run[-1:] if len(run) > 3 else run
+            res += thin(run)
             run = []
             res.append(p)
         else:
             run.append(p)
-    res += run[:3] + run[-1:] if len(run) > 3 else run
+    res += thin(run)
     return sorted(set(res)) + [len(events)]
 
 
@@ -465,7 +600,7 @@ def completed_actions(events, point):
     return len(lt.to_actions([(0, k, w, h) for k, w, h in upto]))
 
 
-def run_case(ctx, state, rname, wnames, points, record=True):
+def run_case(ctx, state, rname, wnames, points, opened=None):
     """one forced run; returns dict with what the oracle / the correspondence need"""
     bench, tracer, history = state['bench'], state['tracer'], state['history']
     state['n'] += 1
@@ -477,12 +612,14 @@ def run_case(ctx, state, rname, wnames, points, record=True):
     # references to the objects published at v0 (what a reader that already left the section still holds)
     held = [(st, canon(st.mk_state_node(bench.mdib.data_model.pm_names.State, bench.mdib.nsmapper)))
             for st in list(bench.mdib.states.objects) + list(bench.mdib.context_states.objects)]
-    writers = [lambda w=w, j=j: WRITERS[w](bench, n0 + j) for j, w in enumerate(wnames)]
-    f = Forced(bench, tracer, lambda: READERS[rname](bench), writers, points).run()
+    writers = [lambda pause=None, w=w, j=j: WRITERS[w](bench, n0 + j, pause) for j, w in enumerate(wnames)]
+    opened = list(opened or [False] * len(wnames))
+    f = Forced(bench, tracer, lambda: READERS[rname](bench), writers, points, opened).run()
     evs_all = list(tracer.events)
     r_events = reader_events(tracer, f.reader_tid)
     res = {'reader': rname, 'writers': wnames, 'points': points, 'v0': v0, 'toggle_phase': phase0, 'errors': f.errors, 'n_events': len(r_events),
-           'r_events': r_events, 'events': evs_all, 'reader_tid': f.reader_tid, 'writer_tids': [th.name for th, _, _ in f.started]}
+           'r_events': r_events, 'events': evs_all, 'reader_tid': f.reader_tid, 'writer_tids': [th.name for _, th, _, _ in f.started], 'writer_ks': [k for k, *_ in f.started],
+           'opened': opened, 'paused_actions': dict(f.paused_actions)}
     if f.errors or f.answer is None:
         res['verdict'] = ('harness', '; '.join(f.errors) or 'no answer')
         return res
@@ -505,9 +642,18 @@ def model_line(res):
     progs = [r_prog]
     for j, tid in enumerate(res['writer_tids']):
         acts = lt.to_actions(res['events'], tid)
-        progs.append([f'{a.split()[0]} {100 * (j + 1) + int(a.split()[1])}' if a.startswith('wr') else a for a in acts])
-    starts = [completed_actions(res['r_events'], p) for p in res['points'][:len(res['writer_tids'])]]
-    return 'force ' + ' '.join(map(str, starts)) + ' | ' + ' | '.join(' '.join(tok_act(a) for a in p) for p in progs), progs
+        progs.append([f'{a.split()[0]} {100 * (j + 1) + int(a.split()[1])}' if a.startswith(('wr', 'mutate')) else a for a in acts])
+    ptxt = ' | '.join(' '.join(tok_act(a) for a in p) for p in progs)
+    if any(res['opened']):
+        # explicit schedule: open transaction up to its pause, the request up to the yield point (its disabled steps are
+        # skipped: it waits for the lock), the rest of the transaction, the rest of the request
+        k = res['opened'].index(True)
+        j = res['writer_ks'].index(k) + 1
+        n_w, n_r = len(progs[j]), len(r_prog)
+        sched = [j] * res['paused_actions'].get(k, n_w) + [0] * completed_actions(res['r_events'], res['points'][k]) + [j] * n_w + [0] * n_r
+        return 'sched ' + ' '.join(map(str, sched)) + ' | ' + ptxt, progs
+    starts = [completed_actions(res['r_events'], res['points'][k]) for k in res['writer_ks']]
+    return 'force ' + ' '.join(map(str, starts)) + ' | ' + ptxt, progs
 
 
 def run(ctx):
@@ -545,6 +691,19 @@ def _run(ctx):
             # the selection itself changes: every yield point x every phase (create / add state / remove)
             for p in pts:
                 cases += [(rname, ['toggleTx'], [p])] * 3
+        # the entity work flow (entity.states edited in place, then write_entity) for the requests that serialise state
+        # objects after they released the lock
+        if rname.startswith(('getMdState', 'getContextStates')) or ctx.tier == 'thorough':
+            for w in ENTITY_WRITERS:
+                if w not in wsel:
+                    for p in pts:
+                        cases.append((rname, [w], [p]))
+        # a transaction that is already OPEN (fetched its objects, holds the locks) when the request arrives and commits at
+        # the yield point: on a correctly locked handler the request waits; every yield point is tried
+        osel = [w for w in wsel if w in OPENABLE][:ctx.n(2, 99)] or ['metricTx']
+        for w in osel:
+            for p in pts[1:]:
+                cases.append((rname, [w], [p], [True]))
         # two transactions in one request (three threads)
         pairs = list(itertools.combinations_with_replacement(pts, 2))
         rng.shuffle(pairs)
@@ -558,13 +717,18 @@ def _run(ctx):
     for fn in sorted(os.listdir(cdir)) if os.path.isdir(cdir) else []:
         entry = json.load(open(os.path.join(cdir, fn)))
         kinds = [e[0] for e in base_events[entry['reader']]]
-        corpus.append((entry['reader'], entry['writers'], [kinds.index(k) if k in kinds else len(kinds) for k in entry['at']]))
+        pts = [kinds.index(k) if k in kinds else len(kinds) for k in entry['at']]
+        corpus.append((entry['reader'], entry['writers'], pts, [bool(entry.get('open'))] + [False] * (len(pts) - 1)))
     cases = corpus + cases
     lines, metas = [], []
-    for rname, wn, pts in cases:
-        res = run_case(ctx, state, rname, wn, pts)
+    for rname, wn, pts, *rest in cases:
+        opened = rest[0] if rest else [False] * len(wn)
+        res = run_case(ctx, state, rname, wn, pts, opened)
         in_flight = any(0 < p < res['n_events'] for p in pts)
         case = {'reader': rname, 'writers': wn, 'points': pts}
+        if any(opened):
+            case['opened'] = opened
+            ctx.count('open-transaction')
         if 'toggleTx' in wn:
             case['toggle_phase'] = res['toggle_phase']
         ctx.case(case, nontrivial=in_flight, sample={**case, 'answer_version': res.get('answer_version'), 'v0': res['v0'],
@@ -661,11 +825,12 @@ def parse_force(o):
 def report(ctx, res):
     sig, detail = res['verdict']
     case = {'reader': res['reader'], 'writers': res['writers'], 'points': res['points'], 'toggle_phase': res['toggle_phase'],
-            'reader_events': [list(e) for e in res['r_events']][:40]}
+            'opened': res['opened'], 'reader_events': [list(e) for e in res['r_events']][:40]}
     if sig == 'harness':
         raise RuntimeError('forced schedule could not be executed: ' + detail)
     inject = [res['r_events'][p][0] + ('' if res['r_events'][p][2] else '(unlocked)') if p < len(res['r_events']) else 'end' for p in res['points']]
-    ctx.fail(f"{res['reader'].split('_')[0]}:{sig}", f"{detail}; transaction(s) {res['writers']} started at reader event(s) {inject}", case)
+    how = 'opened before the request, committing at' if any(res['opened']) else 'started at'
+    ctx.fail(f"{res['reader'].split('_')[0]}:{sig}", f"{detail}; transaction(s) {res['writers']} {how} reader event(s) {inject}", case)
 
 
 def search(ctx):
@@ -683,7 +848,7 @@ def replay(ctx, obj):
     state = new_state()
     while getattr(state['bench'], 'toggle_phase', 0) != case.get('toggle_phase', 0):
         w_toggle(state['bench'], 7)
-    res = run_case(ctx, state, case['reader'], case['writers'], case['points'])
+    res = run_case(ctx, state, case['reader'], case['writers'], case['points'], case.get('opened'))
     print('reader events:', [e[0] + ('' if e[2] else '*') for e in res['r_events']][:30], '(* = mdib_lock not held)')
     print('answer MdibVersion:', res.get('answer_version'), 'MdibVersion before:', res['v0'], '->', res['verdict'], res.get('mutated'))
     return bool(res['verdict']) or 'mutated' in res
